@@ -54,7 +54,7 @@ def main():
         checks = ALL if a.checks == "all" else a.checks.split(",")
         caught = {}
         for c in checks:
-            r = subprocess.run([os.path.join(HERE, "check"), c, "--tier", a.tier, "--seed", a.seed], cwd=HERE, env=dict(env, VERIF_REPO=scratch), capture_output=True, text=True)
+            r = subprocess.run([os.path.join(HERE, "check"), c, "--tier", a.tier, "--seed", a.seed], cwd=HERE, env=dict(env, VERIF_REPO=scratch, TLV_EVIDENCE_DIR=os.path.join(scratch, "_evidence")), capture_output=True, text=True)
             keys = [l.strip().split(" count=")[0].replace("key=", "") for l in r.stdout.splitlines() if l.strip().startswith("key=")]
             caught[c] = {"rc": r.returncode, "keys": keys[:6]}
             print("  %s rc=%d %s" % (c, r.returncode, keys[:3]), flush=True)
